@@ -138,5 +138,6 @@ Fixpoint occurs (s : expr) (e : expr) {struct e} : bool :=
   expr_eqb s e || any_child (occurs s) e.
 
 (** generous default fuel used when the model is run against the implementation *)
-Definition sys_fuel (sy : sys) : nat := fold_left (fun acc e => (acc + 20 * size e)%nat) (all_exprs sy) 200%nat.
+Definition sys_fuel (sy : sys) : nat :=
+  N.to_nat (fold_left (fun acc e => acc + 500 * N.of_nat (size e)) (all_exprs sy) 50000).
 Definition simplify_sys_default (sy : sys) : option sys := simplify_sys (sys_fuel sy) sy.
